@@ -237,6 +237,28 @@ Proof. exact sample_affine_linear. Qed.
 Print Assumptions sampling_affine_then_linear_is_exact.
 
 (* ------------------------------------------------------------------ *)
+(* T10 (no overshoot).  Inside the hull every per-axis mix is a convex combination of array
+   entries: bounds on the array are bounds on the interpolant. *)
+Theorem interpolation_within_bounds : forall (axes : list axis) (G : list nat -> R) (lo hi : R),
+  Forall (fun t => Asc (a_c t) /\ (2 <= length (a_c t))%nat /\
+                   nth 0 (a_c t) 0 <= a_x t <= nth (length (a_c t) - 1) (a_c t) 0) axes ->
+  (forall js, Forall2 (fun t j => (j < length (a_c t))%nat) axes js -> lo <= G js <= hi) ->
+  lo <= peraxis_point (map a_s axes) (map a_c axes) (wrapped (shape_of axes) G) (map a_x axes) <= hi.
+Proof. exact peraxis_bounds_d. Qed.
+Print Assumptions interpolation_within_bounds.
+
+(* ------------------------------------------------------------------ *)
+(* T11 (Resampling onto the same grid / linear_deform with zero displacement is the identity).
+   Evaluating any per-axis mix on the mesh grid of the array's own nodes returns the array,
+   for every shape (flat C-order list of the right length) and all admissible axes. *)
+Theorem resampling_same_grid_is_identity : forall (l : list (scheme * list R)) (flat : list R),
+  Forall (fun t : scheme * list R => good_axis (fst t) (snd t)) l ->
+  length flat = prodn (map (@length R) (map snd l)) ->
+  peraxis_mesh (map fst l) (map snd l) (vget (map (@length R) (map snd l)) flat) (map snd l) = flat.
+Proof. exact resample_same_grid. Qed.
+Print Assumptions resampling_same_grid_is_identity.
+
+(* ------------------------------------------------------------------ *)
 (* Non-vacuity: the hypotheses are satisfiable, and the same definitions run at Q. *)
 Example hypotheses_satisfiable :
   Asc [0; 1; 3] /\ good_axis SLinear [0; 1; 3] /\ good_axis SNearest [0; 1; 3] /\
